@@ -7,5 +7,5 @@ for p in "$@"; do
   out=$(cd /verif && ./check $p quick 2>&1 | grep -E "^VIOLATION|^KNOWN|machinery" | head -3)
   echo "$p: ${out:-no alarm}"
 done
-cd /repo && git checkout -- . && git status --short | head -3
+cd /repo && git checkout -- . && git clean -fdq -- src tests examples && git status --short | head -3
 cd /verif && git checkout -- evidence && python3 tools/extract.py >/dev/null
